@@ -381,7 +381,8 @@ fn run_case(cx: &CaseCtx, rep: &mut Report) {
 					if l > m || m != cap as usize {
 						fail(rep, "bound|length>max", "cache holds more entries than its capacity allows");
 					}
-					if inserted_new && l <= before && before > 0 {
+					// an eviction happened: a new entry came in without the length growing, or the length shrank
+					if (inserted_new && l <= before && before > 0) || l < before {
 						evictions += 1;
 						// the entry used immediately before this insertion must have survived
 						if let Some(prev) = prev_used(&last_used, &op) {
